@@ -1,6 +1,6 @@
 """C06 — every snapshot is safe to read and internally consistent (memory-safety clauses)."""
 from cfg import Inconclusive, op_place, show, walk, strip_casts
-from common import (atomic_op, calls_to, callee, closure_creations, closure_consumer, field_chain, fn_of,
+from common import (resolve_capture, atomic_op, calls_to, callee, closure_creations, closure_consumer, field_chain, fn_of,
                     find_fn, get_fn, head_sources, peel, site, guards_of, field_assigns, field_borrows,
                     field_reads, is_diverging, ret_aggregates, uses_of_local)
 from props.c09 import classify
@@ -114,7 +114,9 @@ def rule_unchecked_feed(ctx):
                 # all indices below last_snapshot, then in-flight ones removed
                 rm = get_fn(facts, "nucleo", "worker::Worker::<T>::reset_matches")
                 ext = [b_ for b_, t_ in rm.calls(lambda t: callee(t).endswith("Extend<T>>::extend") or callee(t).endswith("::extend"))]
-                rem = [b_ for b_, t_ in rm.calls(lambda t: callee(t) == "worker::Worker::<T>::remove_in_flight_matches")]
+                holders = {f_.path for f_, _, _ in inflight_retains(facts)}
+                rem = [b_ for b_, t_ in rm.calls(lambda t: callee(t) in holders)]
+                rem += [b_ for f_, b_, _ in inflight_retains(facts) if f_.path == rm.path]
                 if ext and rem and rm.all_paths_to_return_pass(rm.blocks[ext[0]]["term"]["target"], via_nodes=rem):
                     ctx.ok(site(fn, bi, si), "reset_matches enumerates 0..last_snapshot and always removes the in-flight indices afterwards")
                 else:
@@ -145,6 +147,24 @@ def rule_unchecked_feed(ctx):
     ctx.floor("Match construction sites", n_prod, 6)
 
 
+def inflight_retains(facts):
+    """Role-based anchor: `self.in_flight.retain(closure)` wherever it lives: [(fn, bb, closure_path)]."""
+    out = []
+    for b in facts.bodies_of("nucleo"):
+        fn = fn_of(b)
+        for bi, t in fn.calls(lambda t: callee(t).endswith("Vec::<T, A>::retain") or callee(t).endswith("::retain_mut")):
+            recv = fn.expr_of_operand(t["args"][0])
+            if not any(x[0] == "field" and x[2] == "in_flight" for x in walk(recv)):
+                continue
+            clo = fn.expr_of_operand(t["args"][1])
+            cpath = clo[1] if clo[0] == "closure" else None
+            cb = facts.body("nucleo", cpath) if cpath else None
+            # the pass that takes placeholders of still-in-flight items OUT of the match list
+            if cb is not None and any(callee(t2).endswith("::remove") or callee(t2).endswith("::swap_remove") for _, t2 in fn_of(cb).calls()):
+                out.append((fn, bi, cpath))
+    return out
+
+
 def in_flight_pushes(facts):
     out = []
     for b in facts.bodies_of("nucleo"):
@@ -152,11 +172,20 @@ def in_flight_pushes(facts):
         for bi, t in fn.calls(lambda t: callee(t).endswith("Vec::<T, A>::push") or callee(t).endswith("::insert") or callee(t).endswith("Vec::<T, A>::extend_from_slice")):
             recv = fn.expr_of_operand(t["args"][0])
             names = []
-            for x in walk(recv):
-                if x[0] == "field":
-                    names.append(x[2])
-                if x[0] in ("arg", "local") and x[2]:
-                    names.append(x[2])
+            exprs = [(fn, recv)]
+            # a captured variable (e.g. a Mutex around &mut self.in_flight): look at what the parent captured
+            if fn.b.get("kind") == "Closure":
+                for x in walk(recv):
+                    if x[0] == "field" and peel(x[1])[0] == "arg" and peel(x[1])[1] == 1:
+                        rc = resolve_capture(fn, x[2])
+                        if rc is not None:
+                            exprs.append(rc)
+            for f_, e_ in exprs:
+                for x in walk(e_):
+                    if x[0] == "field":
+                        names.append(x[2])
+                    if x[0] in ("arg", "local") and x[2]:
+                        names.append(x[2])
             if any(n == "in_flight" or n.endswith("__in_flight") for n in names):
                 out.append((fn, bi, t))
     return out
@@ -164,7 +193,10 @@ def in_flight_pushes(facts):
 
 def rule_inflight_order(ctx):
     facts = ctx.facts
-    rm = get_fn(facts, "nucleo", "worker::Worker::<T>::remove_in_flight_matches::{closure#0}")
+    rets = [r for r in inflight_retains(facts) if r[2]]
+    if len(rets) != 1:
+        raise Inconclusive("expected exactly one `in_flight.retain(closure that removes matches)`, found %d" % len(rets))
+    rm = get_fn(facts, "nucleo", rets[0][2])
     # the removal is positional with a running offset => needs ascending order
     positional = False
     for bi, t in rm.calls(lambda t: callee(t).endswith("Vec::<T, A>::remove")):
